@@ -255,7 +255,19 @@ func (env *c23Env) inject(ev int) bool {
 		if st := env.observe(); st < c23OpenSent || st > c23Established {
 			return false
 		}
-		vAdvance(int64(91 * time.Second))
+		if vParam("failwrite") == 2 {
+			// the transport dies after the second keepalive interval: the hold timer runs out on a dead connection
+			vAdvance(int64(30*time.Second + time.Millisecond))
+			vSettle()
+			vAdvance(int64(30*time.Second + time.Millisecond))
+			vSettle()
+			if c, ok := fsm.con.(*c23Conn); ok && c != nil {
+				c.failWrite = true
+			}
+			vAdvance(int64(31 * time.Second))
+		} else {
+			vAdvance(int64(91 * time.Second))
+		}
 		env.quiet += 91 * time.Second
 		return true
 	case evKeepaliveTimer:
@@ -393,7 +405,7 @@ func VC23_Steps() {
 		}
 		// a timer event that lets the hold time run out is a hold timer expiry
 		// on a transport that refuses writes, sending the KEEPALIVE fails: TcpConnectionFails (OpenSent -> Active, later -> Idle)
-		writeFailed := vParam("failwrite") == 1 && took && ((cur == c23OpenSent && (ev == evOpen || ev == evBadOpen) && next == c23Active) ||
+		writeFailed := vParam("failwrite") >= 1 && took && ((cur == c23OpenSent && (ev == evOpen || ev == evBadOpen) && next == c23Active) ||
 			((cur == c23OpenConfirm || cur == c23Established) && ev == evKeepaliveTimer && next == c23Idle))
 		vAssert(c23Allowed(cur, ev, next, took) || writeFailed || (holdDue && (ev == evKeepaliveTimer || ev == evConnectRetryTimer)), "C23.step.allowed")
 		// routes are attached to the Loc-RIB exactly while the session is Established
